@@ -481,6 +481,42 @@ def facts(snap, F):
               "cache_activate tags the dict with the activating thread (`proc._cache = (get_ident(), {})`) and the wrapper "
               "consults / fills the cache only when `owner == get_ident()`; any other thread calls fun(self) directly")
 
+    def lock_reentrant():
+        fn = front().defs.get("_init") or front().defs["__init__"]
+        kinds = []
+        for n in ast.walk(fn):
+            if isinstance(n, ast.Assign) and extract.dotted(n.targets[0]) == "self._lock" and isinstance(n.value, ast.Call):
+                kinds.append(extract.dotted(n.value.func).split(".")[-1])
+        if len(kinds) != 1:
+            raise NotRecognised("Process._init: expected exactly one `self._lock = ...`")
+        return kinds[0] == "RLock"
+    F.try_add("lockReentrant", "Bool", lambda: L.lean_bool(lock_reentrant()),
+              "Process._init: `self._lock = threading.RLock()` — the lock oneshot() holds for the whole block is re-entrant "
+              "(the model's acquire step from inside the holder's own block)")
+
+    def oneshot_users():
+        """functions of psutil/__init__.py that enter a oneshot() block or touch a Process lock, and on which object"""
+        users, on_self = [], True
+        tree = init_tree()
+        for fn in ast.walk(tree):
+            if not isinstance(fn, (ast.FunctionDef, ast.AsyncFunctionDef)) or fn.name == "oneshot":
+                continue
+            hit = False
+            for n in ast.walk(fn):
+                if isinstance(n, ast.Attribute) and n.attr in ("oneshot", "_lock"):
+                    if n.attr == "_lock" and isinstance(n.ctx, ast.Store):
+                        continue          # `self._lock = threading.RLock()` in _init
+                    hit = True
+                    if extract.dotted(n.value) != "self":
+                        on_self = False
+            if hit:
+                users.append(fn.name)
+        return sorted(set(users)), on_self
+    F.try_add("oneshotCallers", "List String", lambda: strs(oneshot_users()[0]),
+              "functions of psutil/__init__.py (other than oneshot itself) that enter `.oneshot()` or touch `._lock`")
+    F.try_add("oneshotOnSelfOnly", "Bool", lambda: L.lean_bool(oneshot_users()[1]),
+              "… each of them on `self` only: no library code takes the lock of a second Process object while holding one")
+
     def guard_gone():
         fn = front().defs["_raise_if_pid_reused"]
         for n in ast.walk(fn):
